@@ -86,6 +86,7 @@ type PlainProbe struct {
 	Starts   []time.Duration // virtual times at which Run was (re)started
 	wakes    int
 	curIns   []InSpec
+	rt       controller.Runtime
 	ResetBackoffOnOK bool
 }
 
@@ -112,6 +113,22 @@ func (p *PlainProbe) Outputs() []controller.Output {
 	}
 
 	return out
+}
+
+// Runtime returns the controller.Runtime captured when Run started (nil before).
+func (p *PlainProbe) Runtime() controller.Runtime { //nolint:ireturn
+	p.mu.Lock()
+	defer p.mu.Unlock()
+
+	return p.rt
+}
+
+// SetInputs replaces the inputs the probe reads (after an UpdateInputs issued by the harness).
+func (p *PlainProbe) SetInputs(ins []InSpec) {
+	p.mu.Lock()
+	defer p.mu.Unlock()
+
+	p.curIns = append([]InSpec{}, ins...)
 }
 
 // CurrentInputs returns the inputs currently declared (initial + late once applied).
@@ -177,6 +194,7 @@ func ReadInputs(ctx context.Context, r controller.Reader, ins []InSpec) (map[str
 func (p *PlainProbe) Run(ctx context.Context, r controller.Runtime, _ *zap.Logger) error {
 	p.mu.Lock()
 	p.Starts = append(p.Starts, p.W.Now())
+	p.rt = r
 	p.mu.Unlock()
 
 	for {
@@ -259,6 +277,7 @@ type QProbe struct {
 	Ins      []InSpec
 	Outs     []OutSpec
 	Conc     uint
+	ZeroConc bool // declare Concurrency = Some(0) (invalid)
 	Busy     time.Duration
 	// Mapper: mapped (typ,id) -> primary ids (of the first primary input)
 	Mapper   map[string][]string
@@ -301,6 +320,10 @@ func (q *QProbe) Settings() controller.QSettings {
 
 	if q.Conc > 0 {
 		s.Concurrency = optional.Some(q.Conc)
+	}
+
+	if q.ZeroConc {
+		s.Concurrency = optional.Some(uint(0))
 	}
 
 	if q.HookOut != nil {
